@@ -107,3 +107,14 @@ package store
 //@   modifies all
 //@   ghost call Resource.CreateEvent#1 before :: assert create.only-if-unserved: imp(isNil(old(before)), ref(o.def) == 0)
 //@   ghost call Resource.DeleteEvent#1 before :: assert delete.only-if-unserved: imp(isNil(old(after)), ref(o.def) == 0)
+//@
+//@ # ================================================================ shared by the store implementations (C11)
+//@ # chn: number of OnChange callback invocations; chid/chb/cha: arguments of the last one
+//@ ghostvar chn int
+//@ ghostvar chid string
+//@ ghostvar chb iface
+//@ ghostvar cha iface
+//@ func callback.onChangeCB(self ref, id string, before interface{}, after interface{})
+//@   modifies ghost.chn, ghost.chid, ghost.chb, ghost.cha
+//@   ensures chn == old(chn) + 1 && same(chid, id) && same(chb, before) && same(cha, after)
+//@ pred isErr(err error, e *res.Error) = typeIs(err, "*res.Error") && ptrOf(err, "*res.Error") == e
